@@ -107,6 +107,9 @@ def gen_case(rng, quick, force=None):
     kmax = len(tr)
     r = rng.random()
     case["k"] = kmax if r < 0.2 else (2 if r < 0.3 else rng.randint(2, kmax))
+    if est != "ridge" and r >= 0.3 and rng.random() < 0.8:
+        # least squares needs more neighbours than features to be well posed
+        case["k"] = rng.randint(min(p + 2, kmax), kmax)
     if force:
         case.update(force)
     return case
@@ -204,16 +207,21 @@ def fit_w(case, Xs, Ys):
     return W, "cutoff", dict(U=U[:, :bc], S=S[:bc], V=Vt[:bc].T, c=bc, fit_err=best)
 
 
-def eff_cond(sv):
-    """condition number over the numerically non-zero singular values; (cond, ill) where ill
-    flags singular values in the grey zone between 'zero' and 'well separated'."""
+def eff_cond(sv, case):
+    """(cond, why_gated): conditioning of the regression the case's estimator solves on a
+    design with singular values sv.  Ridge alpha > 0: sqrt((smax^2+a)/(smin^2+a)) (always
+    well posed).  Least squares / cut-off: smax/smin; a numerically rank-deficient design makes
+    the minimum-norm solution depend on LAPACK's rank decision, so it is gated."""
     sv = np.asarray(sv, dtype=float)
     if sv.size == 0 or sv.max() <= 0:
-        return float("inf"), True
+        return float("inf"), "zero design"
+    if case["est"] == "ridge":
+        a = case["alpha"]
+        return math.sqrt((sv.max() ** 2 + a) / (sv.min() ** 2 + a)), None
     rel = sv / sv.max()
-    ill = bool(np.any((rel > 1e-13) & (rel < 1e-7)))
-    nz = rel[rel >= 1e-7]
-    return float(1.0 / nz.min()), ill
+    if np.any(rel < 1e-7):
+        return float("inf"), "numerically rank-deficient design for a least-squares / cut-off fit"
+    return float(1.0 / rel.min()), None
 
 
 def hints(case):
@@ -223,8 +231,10 @@ def hints(case):
     Ys_tr, Ys_te = standardise(Y[tr], Y[tr]), standardise(Y[tr], Y[te])
     p, q = X.shape[1], Y.shape[1]
     sx = np.linalg.svd(Xs_tr, compute_uv=False)
-    cond, ill = eff_cond(sx)
-    h = dict(train=tr, test=te, cond=cond, p=p, q=q, gated="ill-conditioned training source" if ill else None)
+    cond, why = eff_cond(sx, case)
+    if case["measure"] == "lre":
+        cond, why = 1.0, None          # the global fit is not used by LRE
+    h = dict(train=tr, test=te, cond=cond, p=p, q=q, gated=why)
     if case["measure"] in ("gre", "grd"):
         W, kind, extra = fit_w(case, Xs_tr, Ys_tr)
         h.update(W=W, kind=kind, extra=extra)
@@ -249,10 +259,10 @@ def hints(case):
             lx, ly = Xs_tr[nb], Ys_tr[nb]
             lxc, lyc = lx - lx.mean(axis=0), ly - ly.mean(axis=0)
             sl = np.linalg.svd(lxc, compute_uv=False)
-            cl, ill_l = eff_cond(sl)
+            cl, why_l = eff_cond(sl, case)
             conds.append(cl)
-            if ill_l:
-                h["gated"] = "ill-conditioned local design"
+            if why_l:
+                h["gated"] = "local: " + why_l
             Wi, kind, extra = fit_w(case, lxc, lyc) if case["est"] != "default" else (None, "default", None)
             nbrs.append(nb)
             Ws.append(Wi)
@@ -420,7 +430,7 @@ HEAD = (C.SHARD_HEAD + "From Coq Require Import List Bool PrimFloat.\nImport Lis
 
 def run(ctx):
     po = C.proof_obligations(ctx.prop)
-    ncases = 240 if ctx.quick else 3000
+    ncases = 400 if ctx.quick else 3000
     cases, recs, hs = [], [], []
     stats = dict(measures={}, estimators={}, widths={}, modes={}, families={}, errors=0, gated={},
                  no_coq_model=0, k_all=0)
@@ -502,7 +512,7 @@ def run(ctx):
             msg = "GRD with X wider than Y differs from the padded definition (model of the repaired code)"
         report(i, msg, "*_case_ok (Model/Recon.v)")
     n_deep = 0
-    deep_budget = 80 if ctx.quick else 600
+    deep_budget = 120 if ctx.quick else 600
     for i, (c, r) in enumerate(zip(cases, recs)):
         if i in reported or "error" in r:
             continue
